@@ -13,7 +13,7 @@ import numpy as np
 PROP = "C05"
 LEVEL = "exploration"
 VARIANTS = ("omp",)
-CASE_TIMEOUT = 300
+CASE_TIMEOUT = 1200
 SYMPREC = 1e-5
 RULE = ("cases = lattice family (random sheared by unimodular matrices, needles/plates to 1:50, cubic/fcc/bcc/hex with atoms on 0,1/2,1/3,1/4 fractions for 2..8-fold ties, "
         "zoo supercells through Primitive) x dense|sparse storage; every (supercell atom, primitive atom) pair is an evaluation; "
